@@ -162,6 +162,12 @@ func (w *World) resolveType(t *SType, from string) (types.Type, error) {
 			return nil, err
 		}
 		return types.NewSlice(e), nil
+	case "chan":
+		e, err := w.resolveType(t.Elem, from)
+		if err != nil {
+			return nil, err
+		}
+		return types.NewChan(types.SendRecv, e), nil
 	case "map":
 		k, err := w.resolveType(t.Key, from)
 		if err != nil {
